@@ -43,7 +43,7 @@ def run(ctx):
         exh = histories(ctx, 3, 4, "soa_exh")
         exk = histories(ctx, 3, 4, "soa_kinds", kinds=ALLK)
         exh4 = histories(ctx, 4, 3, "soa_exh4")
-        sim = histories(ctx, 30, 8, "soa_sim", simulate=(8000, 32), kinds=ALLK)
+        sim = histories(ctx, 30, 8, "soa_sim", simulate=(3000, 32), kinds=ALLK)     # 8000 x 32 with all range forms exhausts the heap
         plan = [("soa_exh", exh, "hsva,rgb,laba,oklch,luma,jmha"), ("soa_kinds", exk, "hsva,rgb"), ("soa_exh4", exh4, "hsva"),
                 ("soa_sim", sim, "hsva,rgb,laba,oklch,luma,jmha")]
     total_h, nontrivial = 0, set()
